@@ -3,6 +3,7 @@ package sql
 import (
 	"expvar"
 	"fmt"
+	"io"
 	"math"
 	"math/rand/v2"
 	"strconv"
@@ -55,24 +56,46 @@ func Process(stmts []*proto.Statement, rwrand, rwtime bool) (retErr error) {
 			!ContainsExplain(lowered) {
 			continue
 		}
-		parsed, err := rsql.NewParser(strings.NewReader(stmts[i].Sql)).ParseStatement()
-		if err != nil {
+		// A single SQL text may hold several statements separated by
+		// semicolons. Every one of them must be rewritten, and none may be
+		// dropped from the text.
+		parser := rsql.NewParser(strings.NewReader(stmts[i].Sql))
+		var parts []string
+		anyRewritten, forceQuery, explain := false, false, false
+		ok := true
+		for n := 0; ; n++ {
+			parsed, err := parser.ParseStatement()
+			if err == io.EOF {
+				break
+			}
+			if err != nil {
+				ok = false
+				break
+			}
+			rewriter := NewRewriter()
+			rewriter.RewriteRand = rwrand
+			rewriter.RewriteTime = rwtime
+			rwStmt, rewritten, ret, err := rewriter.Do(parsed)
+			if err != nil {
+				ok = false
+				break
+			}
+			if n == 0 {
+				_, explain = parsed.(*sql.ExplainStatement)
+				forceQuery = ret
+			}
+			anyRewritten = anyRewritten || rewritten
+			parts = append(parts, rwStmt.String())
+		}
+		if !ok || len(parts) == 0 {
 			continue
 		}
-		_, stmts[i].SqlExplain = parsed.(*sql.ExplainStatement)
-		rewriter := NewRewriter()
-		rewriter.RewriteRand = rwrand
-		rewriter.RewriteTime = rwtime
-		rwStmt, rewritten, ret, err := rewriter.Do(parsed)
-		if err != nil {
-			continue
-		}
-
-		if rewritten {
+		stmts[i].SqlExplain = explain
+		if anyRewritten {
 			stats.Add(numRewrittenStmts, 1)
-			stmts[i].Sql = rwStmt.String()
+			stmts[i].Sql = strings.Join(parts, "; ")
 		}
-		stmts[i].ForceQuery = ret
+		stmts[i].ForceQuery = forceQuery
 	}
 	return nil
 }
